@@ -65,6 +65,8 @@ def to_model(data_file: typing.IO, config: typing.Optional[STLReaderConfiguratio
       LOGGER.error("Bad TTI block")
       raise
     
-    progress_callback(i/m.get_tti_count())
+    # the TNB field of the GSI block may be 0 even though TTI blocks are present
+
+    progress_callback(min(1, i / m.get_tti_count()) if m.get_tti_count() > 0 else 1)
 
   return m.get_document()
